@@ -489,14 +489,14 @@ class CircuitTemplate(AbstractBaseTemplate):
         outputs_final = {}
         for key, out_info in output_map.items():
             if type(out_info) is dict:
-                outputs_final[key] = {key2: np.squeeze(outputs.pop(key2)[:, idx]) for key2, idx in out_info.items()}
+                outputs_final[key] = {key2: _squeeze_units(outputs.pop(key2)[:, idx]) for key2, idx in out_info.items()}
             else:
                 raw = outputs.pop(key)[:, out_info]
                 if hasattr(out_info, '__len__') and len(out_info) > 1:
                     # population output: keep (n_time, n_units) — do not squeeze unit axis
                     outputs_final[key] = raw
                 else:
-                    outputs_final[key] = np.squeeze(raw)
+                    outputs_final[key] = _squeeze_units(raw)
         time_vec = outputs.pop('time')
 
         # interpolate data if necessary
@@ -1669,6 +1669,13 @@ def update_dict(base_dict: dict, updates: dict):
     updated.update(updates)
 
     return updated
+
+
+def _squeeze_units(a: np.ndarray) -> np.ndarray:
+    """Drop singleton unit axes of a state record but never its time axis (axis 0)."""
+    a = np.asarray(a)
+    axes = tuple(i for i in range(1, a.ndim) if a.shape[i] == 1)
+    return np.squeeze(a, axis=axes) if axes else a
 
 
 def is_integration_adaptive(solver: str, **solver_kwargs):
